@@ -60,4 +60,5 @@ EXTRAS = [
     lambda rep, fb, tier: __import__("vf.rules.lints2", fromlist=["x"]).rule_regularized_bounds(rep, fb),
     lambda rep, fb, tier: __import__("vf.rules.lints2", fromlist=["x"]).rule_minmax_direction(rep, fb),
     lambda rep, fb, tier: __import__("vf.rules.lints2", fromlist=["x"]).rule_missing_predicate(rep, fb),
+    lambda rep, fb, tier: __import__("vf.rules.lints3", fromlist=["x"]).rule_list_carry_origin(rep, fb),
 ]
